@@ -92,6 +92,22 @@ def render_fragment(unit, docs, types):
         for x in walk(st_):
             if x.get('kind') == 'VarDecl':
                 p.local_ids.add(x['id'])
+    # pointer-typed variables of the enclosing function that the fragment never assigns are passed by value
+    assigned = set()
+    for st_ in span:
+        for x in walk(st_):
+            if x.get('kind') in ('BinaryOperator', 'CompoundAssignOperator') and x.get('opcode', '').endswith('=') and x.get('opcode') not in ('==', '!=', '<=', '>='):
+                l = x['inner'][0]
+                if l.get('kind') == 'DeclRefExpr':
+                    assigned.add(l['referencedDecl']['id'])
+            if x.get('kind') == 'UnaryOperator' and x.get('opcode') in ('++', '--') and x['inner'][0].get('kind') == 'DeclRefExpr':
+                assigned.add(x['inner'][0]['referencedDecl']['id'])
+    for st_ in span:
+        for x in walk(st_):
+            if x.get('kind') == 'DeclRefExpr' and x.get('referencedDecl', {}).get('kind') in ('VarDecl', 'ParmVarDecl'):
+                rd = x['referencedDecl']
+                if rd['id'] not in p.local_ids and rd['id'] not in assigned and Types.strip(rd.get('type', {}).get('qualType', '')).endswith('*'):
+                    p.byval_free.add(rd['id'])
     txt = ''.join(p.st(st_, 1) for st_ in span)
     params = []
     uses_self = 'self->' in txt or 'self)' in txt or re.search(r'\bself\b', txt)
@@ -105,6 +121,8 @@ def render_fragment(unit, docs, types):
             # a local of the enclosing function: inside the fragment an arbitrary value whose updates are not observable
             locals_txt += '\t%s %s_v; %s *%s = &%s_v;\n' % (ct, nm, ct, nm, nm)
             p.fire('fragment:enclosing-local-as-nondet-local')
+        elif did in p.byval_free:
+            params.append('%s %s' % (ct, nm))
         else:
             params.append('%s *%s' % (ct, nm))
     txt = locals_txt + txt
